@@ -237,11 +237,14 @@ def evaluate(case, drv):
         second = np.array([(1 if (v is None or isinstance(v, str)) else v) + 1.0 for v in case["vals"]], dtype=np.float64)
         owners.append(second)
         second_obj = pd.Series(second, index=index, copy=False) if (index is not None and pandas_keys) else second
+        global_mask_base = np.array([i % 4 != 1 for i in range(n)], dtype=bool)
+        owners.append(global_mask_base)
+        global_mask_series = pd.Series(global_mask_base, index=index, copy=False)
     except ValueError as e:
         res.update(verdict="ok", detail=None, tags=res["tags"] + ["unbuildable:" + str(e)[:30]])
         return res
 
-    inputs = dict(keys=keys, values=values, mask=mask, times=times, second=second_obj, owners=owners)
+    inputs = dict(keys=keys, values=values, mask=mask, times=times, second=second_obj, global_mask=global_mask_series, owners=owners)
 
     def snap_inputs():
         return {k: snapshot(v) for k, v in inputs.items()}
@@ -302,7 +305,8 @@ def evaluate(case, drv):
             bm = bool_mask()
             if bm is None:
                 bm = np.ones(n, dtype=bool) if not pandas_keys else pd.Series(np.ones(n, dtype=bool), index=index)
-            return gb.subset_ratio(values, bm)
+            gm = global_mask_series if isinstance(bm, pd.Series) else global_mask_base
+            return gb.subset_ratio(values, bm, global_mask=gm)
         if op == "density":
             return gb.density(values, mask=mk)
         if op.startswith("rolling_"):
